@@ -368,3 +368,22 @@ where
         self.kktsolver.verif_ldl_perm()
     }
 }
+
+// verification hook (C05, add-only, feature gated): overwrite `workx` separately from the six
+// work vectors that every `solve()` overwrites before it reads them.
+#[cfg(feature = "verif-hooks")]
+#[allow(missing_docs)]
+pub mod verif_hooks_kktsystem_c05 {
+    use super::*;
+
+    /// `workx := a`;  `x1, z1, x2, z2, workz, work_conic := b`
+    pub fn fill_work_vectors_split<T: FloatT>(k: &mut DefaultKKTSystem<T>, a: T, b: T) {
+        k.workx.fill(a);
+        k.x1.fill(b);
+        k.z1.fill(b);
+        k.x2.fill(b);
+        k.z2.fill(b);
+        k.workz.fill(b);
+        k.work_conic.fill(b);
+    }
+}
